@@ -14,6 +14,7 @@ import random
 from .. import ashref as R
 from .. import vloop
 from ..runner import Acc
+from .. import logmode
 
 PROPERTY = "C11"
 LEVEL = "fault_enumeration"
@@ -437,7 +438,7 @@ def run_one(acc: Acc, case):
 def run_shard(desc) -> Acc:
     import logging
 
-    logging.disable(logging.CRITICAL)
+    logmode.apply(desc)
     acc = Acc()
     for i, case in enumerate(gen_cases(desc["tier"], desc["seed"])):
         if i % desc["n"] != desc["k"]:
